@@ -78,8 +78,9 @@ def run(ctx):
     for n in big:
         cases.append(("HF:%d" % n, rng.choice([0, 1, 5]), b"big"))
     # partition tables
-    for _ in range(6 if ctx.tier == "quick" else 80):
-        heads, sect = rng.choice([(1, 32), (2, 16), (4, 17), (16, 63)])
+    for _ in range(14 if ctx.tier == "quick" else 160):
+        # odd blocks-per-cylinder geometries too: with an odd cylinder count a partition then has an odd number of blocks
+        heads, sect = rng.choice([(1, 32), (2, 16), (4, 17), (16, 63), (5, 17), (3, 21), (1, 63), (7, 9)])
         cb = heads * sect
         np_ = rng.randint(1, 4)
         cur = 2
